@@ -256,10 +256,12 @@ def run(tier, r):
     cv, cn = coexisting(mem, tier)
     violations += cv[:40]
     stats["coexisting_instances_checked"] = cn
+    done = 0
     for fam, args in mem:
         if oc.common.past_oracle_cap() or len(violations) >= 60:
             stats["stopped_early"] = "deep-search time cap or enough violations"
             break
+        done += 1
         mseed = r.getrandbits(48)
         res, err = oc.guarded(check_member, fam, args, mseed)
         if err is not None:
@@ -284,7 +286,7 @@ def run(tier, r):
             samples.append({k: info[k] for k in ("family", "args", "n", "value_at_declared", "best", "best_point",
                                                   "best_near_declared", "real_evaluations", "dense_scan")})
     stats["wall_s"] = round(time.time() - t0, 1)
-    return {"explored": len(mem), "distinct_nontrivial": nontrivial,
+    return {"explored": done, "distinct_nontrivial": nontrivial,
             "rule": "members = (family, constructor arguments), all distinct; quick: seeded sample of Hill/Shekel (40 "
                     "each), Grishagin (10), GKLS (4 per dimension), all Shekel4, Rastrigin/XSquared in 5-6 dimensions, "
                     "StronginC3; thorough: every finite member and Rastrigin/XSquared n=1..30,50; before the per-member pass ALL members "
